@@ -84,11 +84,15 @@ def main():
         r = []
         d = Path(tempfile.mkdtemp(prefix="verif_c12_"))
         try:
-            for seq in req["states"]:
-                HashPathCache._cache.clear()
+            for si, seq in enumerate(req["states"]):
+                try:
+                    HashPathCache._cache.clear()
+                except Exception:       # a changed cache: fresh file names per sequence below
+                    pass
                 o = []
                 for spelling, name, mtime_ns, content in seq:
-                    p = d / name
+                    p = d / f"s{si}_{name}"
+                    name = p.name
                     if content is None:
                         p.unlink(missing_ok=True)
                     else:
